@@ -6,6 +6,7 @@ import copy
 from ..core import AnalysisError
 from ..deriv import Spec, Tag
 from ..pyabs import W, lift, deep_eq, PyRaise, LexUnknown, NonUniform
+from ..objabs import ShapeMismatch
 from .common import punct, numbers, to_int, show
 from .alter import deep_eq_safe, _Collector
 from .clauses import Holds
@@ -138,6 +139,8 @@ class EntitiesOracle:
             grouped = self.fmt(self.ctx, [copy.deepcopy(final)], "sql", True)
         except PyRaise as pr:
             return bad("the output layer raises", f"{type(pr.exc).__name__}: {pr.exc}")
+        except ShapeMismatch as sm:
+            return bad("the output layer treats the words of one class differently", f"{sm}")
         except (LexUnknown, NonUniform) as e:
             raise AnalysisError(f"entities fragment: output layer outside the interpreted subset on `{wit}`: {e}")
         self.checked += 1
